@@ -651,3 +651,156 @@ def rule_error_discipline(ctx: Ctx, clause: str, rule="DU.error-discipline", min
     if n < min_sites:
         ctx.soft_fail(f"error-discipline rule matched {n} sites (< {min_sites})")
     return n
+
+
+# ------------------------------------------------------------------------------------------ state lineage
+STATE_PARAM_NAMES = ("sim", "simulation_state", "sim_state", "s", "exit_sim", "updated_sim", "sim2", "sim3", "initial_sim_state")
+
+
+def state_producers(repo: Repo) -> Dict[str, int]:
+    """name -> index (among the call's positional arguments, `self` not counted) of the simulation-state argument, for
+    functions that take a simulation state and return one (alone, in an error pair or in a Result)."""
+    out: Dict[str, int] = {}
+    clash: Set[str] = set()
+    for f in repo.all_funcs():
+        if f.relpath.startswith(STEP_PATH_EXCLUDE):
+            continue
+        ret = getattr(f.node, "returns", None)
+        if ret is None or "SimulationState" not in flow.dump(ret):
+            continue
+        a = f.node.args
+        ps = [x for x in a.posonlyargs + a.args]
+        if f.cls is not None and ps and ps[0].arg in ("self", "cls", "mcs"):
+            ps = ps[1:]
+        idx = None
+        for i, x in enumerate(ps):
+            ann = flow.dump(x.annotation) if x.annotation is not None else ""
+            if "SimulationState" in ann and "Tuple" not in ann and "Callable" not in ann:
+                idx = i
+                break
+        if idx is None:
+            continue
+        if f.name in out and out[f.name] != idx:
+            clash.add(f.name)
+        out[f.name] = idx
+    for c in clash:
+        out.pop(c, None)
+    for amb in ("update", "build", "get"):
+        out.pop(amb, None)
+    out["exit"] = -1  # VehicleState.exit(next_state, sim, env) / DriverState.exit(sim, env): decided by the argument count
+    return out
+
+
+def _state_arg(call: ast.Call, idx: int) -> Optional[ast.AST]:
+    if idx == -1:
+        idx = 1 if len(call.args) >= 3 else 0
+    if idx < len(call.args):
+        return call.args[idx]
+    for k in call.keywords:
+        if k.arg in STATE_PARAM_NAMES:
+            return k.value
+    return None
+
+
+def state_lineage(v: Optional[ast.AST], producers: Dict[str, int]) -> List[ast.Call]:
+    """The chain of state-producing calls through which the state `v` was obtained (following the state argument)."""
+    out: List[ast.Call] = []
+    seen = 0
+    while v is not None and seen < 50:
+        seen += 1
+        if isinstance(v, ast.Subscript) and isinstance(v.slice, ast.Constant) and v.slice.value in (0, 1):
+            v = v.value
+            continue
+        if isinstance(v, ast.Call):
+            nm = v.func.attr if isinstance(v.func, ast.Attribute) else getattr(v.func, "id", None)
+            if isinstance(v.func, ast.Attribute) and v.func.attr in ("unwrap", "_replace"):
+                v = v.func.value
+                continue
+            if nm in producers:
+                out.append(v)
+                v = _state_arg(v, producers[nm])
+                continue
+            return out
+        if isinstance(v, ast.Tuple) and len(v.elts) == 2:
+            v = v.elts[1]
+            continue
+        if isinstance(v, ast.IfExp):
+            # either arm: take the longer lineage (both arms must be states)
+            a, b = state_lineage(v.body, producers), state_lineage(v.orelse, producers)
+            return out + (a if len(a) >= len(b) else b)
+        return out
+    return out
+
+
+def rule_state_lineage(ctx: Ctx, clause: str, funcs: Iterable[Func], rule="DU.state-lineage"):
+    """On every non-failing return path: each state-producing call that ran and whose success was established must lie
+    on the lineage of the returned state. A result committed to an OLDER state silently discards what the newer one
+    contained (the un-assignment done by an exit, a payment, a released plug)."""
+    producers = state_producers(ctx.repo)
+    n = 0
+    for fn in funcs:
+        try:
+            ps = flow.paths(fn.node)
+        except AnalysisError:
+            continue
+        reported = set()
+        for p in ps:
+            if p.kind != "return" or p.value is None:
+                continue
+            k = flow.classify_result(p.value)
+            if k in ("error", "reject", "none"):
+                continue
+            lin = {ast.dump(c) for c in state_lineage(p.value, producers)}
+            if not lin and not isinstance(p.value, (ast.Call, ast.Tuple, ast.Subscript)):
+                continue
+            facts = p.facts()
+            for e in p.events:
+                if e.deferred or e.name not in producers:
+                    continue
+                d = ast.dump(e.call)
+                # success established: error slot tested falsy / value slot tested present / Result unwrapped
+                err = ast.dump(ast.Subscript(value=e.call, slice=ast.Constant(value=0), ctx=ast.Load()))
+                st = ast.dump(ast.Subscript(value=e.call, slice=ast.Constant(value=1), ctx=ast.Load()))
+                ok_est = False
+                for a, pol in facts:
+                    da = ast.dump(a.args[0]) if flow.is_syn(a, "$isnone") else ast.dump(a)
+                    if flow.is_syn(a, "$isnone"):
+                        if (da == err and pol is True) or (da == st and pol is False):
+                            ok_est = True
+                    elif (da == err and pol is False) or (da == st and pol is True):
+                        ok_est = True
+                if not ok_est:
+                    continue
+                n += 1
+                key = (e.raw.lineno, p.lineno)
+                if key in reported:
+                    continue
+                reported.add(key)
+                ctx.check(d in lin, clause, rule, f"{fn.qualname}: the state produced by {e.name}() (line {e.raw.lineno}) is the one carried to the result at line {p.lineno}", fn, e.raw,
+                          why_ok="on the lineage of the returned state",
+                          why_bad=f"{e.name}(...) succeeded on this path but the returned state {flow.dump(p.value)[:140]} is not built on it: what {e.name} changed (a release, an un-assignment, a payment) is discarded",
+                          construct=f"{fn.qualname}:dropped-state:{e.name}")
+    return n
+
+
+def step_path_funcs(repo: Repo) -> List[Func]:
+    return [f for f in repo.all_funcs() if not f.relpath.startswith(STEP_PATH_EXCLUDE)]
+
+
+def rule_enter_installs(ctx: Ctx, clause: str, rule="TS.enter-installs"):
+    """Every success path of every enter() installs the activity: its result derives from apply_new_vehicle_state(...)
+    or from a delegated sibling enter. An enter that reports success with a state in which the vehicle's activity was
+    not written makes a transition (and an instruction) look applied while the previous activity's exit has already
+    released what it held."""
+    n = 0
+    for sc in states.state_classes(ctx.repo):
+        for m in sc.success("enter"):
+            n += 1
+            v = m.path.value
+            ok = enter_delegate(v) is not None or bool(flow.calls_in(v, "apply_new_vehicle_state")) if v is not None else False
+            ctx.check(ok, clause, rule, f"{sc.name}.enter: success at line {m.path.lineno} installs the activity", sc.enter, m.path.end,
+                      why_ok="result derives from apply_new_vehicle_state / a delegated enter",
+                      why_bad=f"path [{m.path.cond_text()[:200]}] returns {flow.dump(v)[:80]} as a success although the vehicle's activity was not written: "
+                              f"after the previous activity's exit the vehicle is in neither activity's books",
+                      construct=f"{sc.name}.enter:success-without-install")
+    return n
